@@ -247,7 +247,7 @@ def gen_case(rng, tier):
         else:
             ops.append({"inst": k, "op": "reassign", "which": "pers_range"})
     # interleave constructors with later ops of other instances a little
-    return {"inputs": {}, "ops": ops, "config": {"probe_interior": rng.randint(1, 3),
+    return {"inputs": {}, "ops": ops, "config": {"probe_interior": rng.randint(1, 3), "probe_kernel": rng.choice(("iso", "iso", "general")),
                                                   "interleave": rng.choice(("scheduler", "scheduler", "as-listed"))}}
 
 
@@ -272,13 +272,19 @@ def probe_transform(im, x, y):
     return np.asarray(img, dtype=float)
 
 
+PROBE_GENERAL = [False]
+
+
 def edge_probes(im, site, discr, sched, n_interior, opi):
     ps = float(im.pixel_size)
     res = tuple(int(r) for r in im.resolution)
     b0, p0 = float(im.birth_range[0]), float(im.pers_range[0])
     delta = 0.01 * ps
     saved = im.kernel_params
-    im.kernel_params = {"sigma": (delta / 5.0) ** 2}
+    v_ = (delta / 5.0) ** 2
+    # the same narrow kernel either as a scalar variance (persim's fast isotropic path) or as a covariance matrix that
+    # is anisotropic by one part in a million (the general path over the pixel-corner mesh)
+    im.kernel_params = {"sigma": v_} if not PROBE_GENERAL[0] else {"sigma": np.array([[v_, 0.0], [0.0, v_ * (1.0 + 1e-6)]])}
     n_probes = 0
     try:
         for axis, (lo, n) in enumerate(((b0, res[0]), (p0, res[1]))):
@@ -392,6 +398,10 @@ def run_case(case, sched):
     if not ops:
         raise InvalidCase("empty history")
     n_interior = int(case["config"].get("probe_interior", 1))
+    pk = case["config"].get("probe_kernel", "iso")
+    if pk not in ("iso", "general"):
+        raise InvalidCase("probe_kernel")
+    PROBE_GENERAL[0] = pk == "general"
     ims = {}
     n_probes = 0
     hard = 0
